@@ -30,7 +30,7 @@ def scanFrom (E : Env) (normalize : Bool) (s : State) (rs : List Rune) : State :
 
 /-- nothing pending: between lines, no word or line in progress, no deferred hyphen logic -/
 def Clean (s : State) : Prop :=
-  s.obuf = [] ∧ s.linebuf = [] ∧ s.deferredEOL = false ∧ s.deferredWord = false
+  s.obuf = [] ∧ s.linebuf = [] ∧ s.deferredEOL = false ∧ s.deferredLines = 0
 
 def shiftTok (k : Nat) (t : Tok) : Tok := { t with line := t.line + k }
 
